@@ -30,6 +30,11 @@ def build(c, ascending=None, fch1=None):
         return stg.Frame.from_data(df=df, dt=dt, fch1=f1, ascending=asc, data=np.zeros((T, F)))
     if r == "backend":
         b = c["backend"]
+        if b.get("with_data"):
+            import io, contextlib
+            with contextlib.redirect_stdout(io.StringIO()):
+                return stg.Frame.from_backend_params(data=np.zeros((T, F)), obs_length=fh(b["obs_length"]), sample_rate=fh(b["sample_rate"]), num_branches=b["nb"],
+                                                     fftlength=b["fftlength"], int_factor=b["int_factor"], fch1=f1, ascending=asc)
         return stg.Frame.from_backend_params(fchans=F, obs_length=fh(b["obs_length"]), sample_rate=fh(b["sample_rate"]), num_branches=b["nb"],
                                              fftlength=b["fftlength"], int_factor=b["int_factor"], fch1=f1, ascending=asc)
     raise ValueError(r)
